@@ -1,6 +1,6 @@
 """Property -> rules table."""
 
-from .rules import inplace, maps, exponent, decomp, threads, evo, tebd, record, iso, optflow, registries, dmrg, bp
+from .rules import inplace, maps, exponent, decomp, threads, evo, tebd, record, iso, optflow, registries, dmrg, bp, linalg, symmetry, gating
 import functools
 
 COMMON_ASSUMPTIONS = [
@@ -65,6 +65,53 @@ REGISTRY = {
             "local expectation / reduced state, the totality of the route dispatchers, the non-mutation discipline of the "
             "routes that take `inplace`, and (for the 1D canonical routes) the record rules of C08. Does NOT decide agreement "
             "with the dense answer, Hermiticity, site-ordering or operator-transposition conventions (value-level)."
+        ),
+        "assumptions": COMMON_ASSUMPTIONS,
+    },
+    "C06": {
+        "rules": [
+            gating.rule_gate_modes, gating.rule_rewire,
+            P(optflow.rule_option_delivery, opts=("transpose", "dagger", "tags", "propagate_tags", "contract", "where"),
+              modules=("quimb.tensor.gating", "quimb.tensor.tnag.core", "quimb.tensor.tn1d.core", "quimb.tensor.tn2d.core", "quimb.tensor.tensor_core"),
+              want_names=lambda f: "gate" in f.name, rule="opt-deliver[gates]", floor=40,
+              exempt_extra={("tensor_network_ag_gate", "filter_valid_site_tags"): "`tags` of filter_valid_site_tags are the old site tags being filtered (name clash)"},
+              description="from every gate entry point, each call whose resolved callee accepts transpose / dagger / tags / propagate_tags / "
+                          "contract / where receives the caller's value, a value derived from it, or has the flag absorbed into transformed "
+                          "arguments (G -> conj(G), transpose = dagger or transpose)"),
+            P(registries.rule_mode_total, specs=[
+                ("quimb.tensor.tnag.core", "tensor_network_ag_gate", "which"),
+                ("quimb.tensor.tnag.core", "tensor_network_apply_op_vec", "which_A"),
+            ]),
+            P(inplace.rule_inplace_effect, family=lambda f: "gate" in f.name or "apply" in f.name, rule="inplace-effect[gates]", floor=25, controls=0),
+        ],
+        "explanation": (
+            "static: decides (narrowly) that the gate-mode vocabulary is closed and validated, that the outer labels are rewired "
+            "through a paired reindex map on every basic path, that transpose / dagger / tags / contract / where reach the handler, "
+            "and that every gate entry point obeys the non-mutation discipline. Does NOT decide that the result equals operator x state, "
+            "site-order conventions, or exactness without truncation."
+        ),
+        "assumptions": COMMON_ASSUMPTIONS,
+    },
+    "C19": {
+        "rules": [symmetry.rule_symmetry_dispatch, symmetry.rule_symmetry_strings, threads.rule_stride_siblings],
+        "explanation": (
+            "static (decision-table extraction + sibling comparison): decides that every symmetry dispatcher handles exactly "
+            "the vocabulary {None,Z2,U1,U1U1} / {0,1,2,3}, rejects anything else, unpacks a sector of the right arity and "
+            "calls the kernel of its own symmetry with the sector components in order; that both directions of the "
+            "rank/config kernels and both COO and matvec kernels exist per symmetry; that the strided kernels and their "
+            "launchers agree. Does NOT decide equality of the representations, the Jordan-Wigner / Pauli rewrites, or "
+            "bijectivity and sizes of the ranking kernels (combinatorial arithmetic)."
+        ),
+        "assumptions": COMMON_ASSUMPTIONS,
+    },
+    "C17": {
+        "rules": [linalg.rule_backend_use_or_reject, linalg.rule_dense_table],
+        "explanation": (
+            "static (registry evaluation + use-or-reject): decides that every registered eigen / singular-value backend accepts "
+            "every setting its dispatcher builds and reads each selection-bearing option it accepts, that the dispatcher builds "
+            "each setting from its own parameter, that the scipy fallback re-issues the same settings, and that the dense "
+            "routine table is total and consistent with its keys. Does NOT decide residuals, orthonormality, selection "
+            "correctness, thresholds or block-diagonal equivalence."
         ),
         "assumptions": COMMON_ASSUMPTIONS,
     },
@@ -260,6 +307,9 @@ REGISTRY = {
 
 
 TECHNIQUE = {
+    "C06": "static analysis: closed-vocabulary rule for gate modes, structural rewiring (reindex-before-attach) rule, option delivery (OPTFLOW) over the gate entry points, effect analysis",
+    "C19": "static analysis: decision-table extraction of the symmetry dispatchers, kernel-name/arity agreement, sibling comparison of strided kernels and launchers",
+    "C17": "static analysis: static evaluation of the backend registries, interface + use-or-reject rules, consistency of the dense routine table",
     "C14": "static analysis: sibling comparison of accumulator readers (unit convention) inside each BP class, delivery of sign/exponent to every combining call, pairing rule for normalisers, effect analysis",
     "C10": "static analysis: ket/bra lock-step and conjugation pairing rules over the DMRG classes, bra forwarding (OPTFLOW) and mirror-block rules",
     "C13": "static analysis: option-delivery (OPTFLOW) for normalized / rehearse / truncation options, mode totality, effect analysis, canonical-record typestate rules",
